@@ -104,6 +104,11 @@ def cross_mutants(l, ver):
             out.append('\t'.join(f[:i] + [e.rstrip('$'), b.rstrip('$')] + f[i + 2:]))          # swapped
             out.append('\t'.join(f[:i] + [b.rstrip('$') + '$', e.rstrip('$')] + f[i + 2:]))    # `$` on begin only
             out.append('\t'.join(f[:i] + [e.rstrip('$') + '$', e.rstrip('$') + '$'] + f[i + 2:]))
+    # alignments: operations of the other version after a first operation both versions share; traces; leading zeros
+    ai = {'L': 5, 'C': 6, 'E': 8, 'F': 7}.get(f[0])
+    if ai is not None and len(f) > ai:
+        for a in ('8M2S', '4M2=4M', '3M1X', '2M1N1M', '1M1H', '2M1P', '2M1D1I', '1,2,3', '12', '0M', 'M', '1M,2M', '*'):
+            out.append('\t'.join(f[:ai] + [a] + f[ai + 1:]))
     return [x for x in out if x != l]
 
 
